@@ -199,6 +199,16 @@ class RegionInterp:
                         continue
                     v = self.const(st.value)
                     continue
+                if isinstance(t, (ast.Tuple, ast.List)) and not _mentions(st, self.var) and \
+                        isinstance(st.value, (ast.Tuple, ast.List)) and len(st.value.elts) == len(t.elts):
+                    # lower, upper = self.bounds[0], self.bounds[1]
+                    for el, ve in zip(t.elts, st.value.elts):
+                        if isinstance(el, ast.Name):
+                            try:
+                                self.env[el.id] = intcmp._const(ve, self.env)
+                            except intcmp.NotSimple:
+                                self.env.pop(el.id, None)
+                    continue
                 if isinstance(t, (ast.Tuple, ast.List)) and not _mentions(st, self.var):
                     # lower, upper = self.bounds  -> bind names to the constants of the env
                     src = norm(st.value)
